@@ -12,6 +12,7 @@ import XotModel.Lemmas.FcloneStrict
 import XotModel.Lemmas.FcloneLocal4
 import XotModel.Lemmas.FcloneLocal5
 import XotModel.Lemmas.FlocalAll3
+import XotModel.Lemmas.FhistLocal
 import XotModel.Lemmas.FclonePrefix8
 import XotModel.Lemmas.FcloneRoundTrip
 import XotModel.Lemmas.FcloneRepr2
@@ -544,5 +545,140 @@ example : (((exForest.cloneNode 3).1.get? 7).map HTree.handles = some [7, 8, 9])
   decide +kernel
 example : ∀ st ∈ [Forest.HStep.call (.setText 9 ['q']), .call (.elementWrap 7 3), .call (.remove 8)],
     ∀ a ∈ st.args, 6 ≤ a := by decide
+
+end XotModel.Props
+
+/-! # ================================================================================================
+    # EXTENDED HISTORIES (branch wt-hist): locality for the composite calls as steps of the histories
+    # ================================================================================================
+
+  `Forest.XCall` (Model/FhistSpec.lean): a call of `Forest.Call`, node creation, set_text_consolidation,
+  remove_insignificant_whitespace — i.e. the steps of `Forest.HStep` — and the composites
+  `create_missing_prefixes`, `deduplicate_namespaces`, `clone_with_prefixes` (ANY iteration order of the
+  inherited prefixes), run on a `Store` (forest + interning tables; `XCall.run`, `Store.xrun`).
+  `XCall.args`: the node arguments; `XCall.writeArgs`: those the call may write below — all of them,
+  except that `clone_node` and `clone_with_prefixes` only READ their source, so they have none.
+
+  As for `C12_locality_step`, no invariant is needed, only `SepB r f` (`r` is a root sharing no handle
+  with another root, all its handles below `next`: true of every root of a forest with the invariant,
+  `C12_sepB_of_inv`); the statements hold whatever the calls answer and for arguments that are not live.
+  For the composites this says: the root tree of the argument is the only root that can change — the
+  `namespaces_mut(h).insert / remove` calls they consist of all have their target `h` in that tree, and
+  `clone_with_prefixes` changes no existing root at all. -/
+
+namespace XotModel.Props
+open XotModel
+
+/-- One extended call none of whose WRITTEN node arguments is a node of the root tree `r` leaves `r`,
+    handle for handle and value for value, a root of the forest (and still separated, so this
+    iterates). -/
+theorem C12_locality_xcall (s : Store) (r : HTree) (c : Forest.XCall) (hs : SepB r s.forest)
+    (hargs : ∀ a ∈ c.writeArgs, a ∉ HTree.handles r) :
+    r ∈ (c.run s).1.forest.roots ∧ SepB r (c.run s).1.forest :=
+  ⟨(hs.xcall c hargs).sep.mem, hs.xcall c hargs⟩
+
+/-- ⟦C12_locality_ext⟧ **Arbitrary extended histories**: a root tree none of whose nodes is ever named
+    as a written argument — of a move, a setter, a map call, `remove_insignificant_whitespace`,
+    `create_missing_prefixes`, `deduplicate_namespaces`, … — is, at the end, exactly the tree it was.
+    (Sources of `clone_node` / `clone_with_prefixes` may lie in `r`.) -/
+theorem C12_locality_ext (s : Store) (r : HTree) (cs : List Forest.XCall) (hs : SepB r s.forest)
+    (hargs : ∀ c ∈ cs, ∀ a ∈ c.writeArgs, a ∉ HTree.handles r) :
+    r ∈ (s.xrun cs).forest.roots ∧ SepB r (s.xrun cs).forest :=
+  ⟨(hs.xrun cs hargs).sep.mem, hs.xrun cs hargs⟩
+
+/-- The same with the hypothesis on ALL node arguments (the form of `C12_locality_all`). -/
+theorem C12_locality_ext_args (s : Store) (r : HTree) (cs : List Forest.XCall) (hs : SepB r s.forest)
+    (hargs : ∀ c ∈ cs, ∀ a ∈ c.args, a ∉ HTree.handles r) :
+    r ∈ (s.xrun cs).forest.roots ∧ SepB r (s.xrun cs).forest :=
+  C12_locality_ext s r cs hs (fun c hc a ha => hargs c hc a (c.writeArgs_sub a ha))
+
+/-- From a forest with the invariant, with the hypothesis read as "the root of every written argument
+    is not `r`". -/
+theorem C12_locality_xcall_root (s : Store) (inv : s.forest.Inv) (r : HTree) (hr : r ∈ s.forest.roots)
+    (c : Forest.XCall)
+    (hargs : ∀ a ∈ c.writeArgs, ∀ t ∈ s.forest.roots, a ∈ HTree.handles t → t ≠ r) :
+    r ∈ (c.run s).1.forest.roots :=
+  (C12_locality_xcall s r c (SepB.of_inv inv hr) (fun a ha har => hargs a ha r hr har rfl)).1
+
+/-- The composites one by one, on a forest with the invariant: **the root of the argument is the only
+    root that changes** — every root tree that does not contain `node` is a root afterwards, unchanged
+    (for every vocabulary, for `node` live or not, whatever the call answers). -/
+theorem C12_locality_createMissingPrefixes (f : Forest) (inv : f.Inv) (env : Env) (node : Nat) :
+    ∀ r ∈ f.roots, node ∉ HTree.handles r → r ∈ (f.createMissingPrefixes env node).1.roots :=
+  fun _ hr hn => ((SepB.of_inv inv hr).createMissingPrefixes env hn).sep.mem
+
+theorem C12_locality_deduplicateNamespaces (f : Forest) (inv : f.Inv) (env : Env) (node : Nat) :
+    ∀ r ∈ f.roots, node ∉ HTree.handles r → r ∈ (f.deduplicateNamespaces env node).1.roots :=
+  fun _ hr hn => ((SepB.of_inv inv hr).deduplicateNamespaces env hn).sep.mem
+
+theorem C12_locality_removeInsignificantWhitespace (f : Forest) (inv : f.Inv) (node : Nat) :
+    ∀ r ∈ f.roots, node ∉ HTree.handles r → r ∈ (f.removeInsignificantWhitespace node).roots :=
+  fun r hr hn => ((SepB.of_inv inv hr).stepAll (.removeInsignificantWhitespace node)
+    (fun a ha => by simp only [Forest.HStep.args, List.mem_singleton] at ha; subst ha; exact hn)).sep.mem
+
+/-- `clone_with_prefixes(node)`, for ANY node (in `r` or not, live or not) and any iteration order,
+    leaves every separated root as it is; the node it returns lies outside every such root (so the
+    declarations are added outside them). -/
+theorem C12_locality_cloneWithPrefixes (f : Forest) (r : HTree) (n : Nat) (order : List (Nat × Nat))
+    (hs : SepB r f) :
+    r ∈ (f.cloneWithPrefixes n order).1.roots ∧ SepB r (f.cloneWithPrefixes n order).1 ∧
+    ∀ c, (f.cloneNode n).2 = some c → c ∉ HTree.handles r :=
+  ⟨(hs.cloneWithPrefixes n order).sep.mem, hs.cloneWithPrefixes n order, fun _ hc => hs.cloneNode_result n hc⟩
+
+/-- The `HStep` histories of `C12_locality_all` are the extended histories without composites. -/
+theorem C12_ext_run_ofStep (s : Store) (ss : List Forest.HStep) :
+    s.xrun (ss.map Forest.XCall.ofStep) = ⟨s.forest.runAll ss, s.env⟩ := Store.xrun_ofStep ss s
+
+/-- Independence under arbitrary later EXTENDED histories: after `clone_node`, the clone is untouched
+    by whatever is done — repairs, deduplications, whitespace stripping, further clonings included — to
+    nodes outside it, and every old tree (in particular the source's) is untouched by whatever is done
+    to nodes outside it (in particular to the clone); for every vocabulary. -/
+theorem C12_independent_ext (f : Forest) (inv : f.Inv) (env : Env) (node c : Nat) (live : f.isLive node = true)
+    (hc : (f.cloneNode node).2 = some c) :
+    ∃ C, (f.cloneNode node).1.get? c = some C ∧
+      (∀ cs : List Forest.XCall, (∀ x ∈ cs, ∀ a ∈ x.writeArgs, a ∉ HTree.handles C) →
+        C ∈ ((⟨(f.cloneNode node).1, env⟩ : Store).xrun cs).forest.roots) ∧
+      (∀ r ∈ f.roots, ∀ cs : List Forest.XCall, (∀ x ∈ cs, ∀ a ∈ x.writeArgs, a ∉ HTree.handles r) →
+        r ∈ ((⟨(f.cloneNode node).1, env⟩ : Store).xrun cs).forest.roots) := by
+  obtain ⟨src, hsrc⟩ := (Forest.isLive_iff f node).mp live
+  obtain ⟨C, f', h1, h2, h3, h4, -⟩ := cloneNode_full f inv node src hsrc
+  obtain ⟨g3, g4⟩ := sepB_after_clone f inv C f' h2 h4
+  rw [h1] at hc ⊢
+  cases hc
+  exact ⟨C, h3, fun cs h => (SepB.xrun (st := ⟨f', env⟩) cs g3 h).sep.mem,
+    fun r hr cs h => (SepB.xrun (st := ⟨f', env⟩) cs (g4 r hr) h).sep.mem⟩
+
+/-- Non-vacuity.  Start: `exForest` after `clone_with_prefixes(3)` (the clone is the root 7 with the nodes
+    7, 10, 8, 9).  An extended history on the SOURCE's tree (written arguments below 6): a duplicate
+    declaration is inserted and DEDUPLICATED away, the ancestor's declaration is removed and the
+    document REPAIRED (`create_missing_prefixes` invents `n0`, interned as prefix 3), the source is
+    CLONED WITH PREFIXES once more (second clone, root 14), then moves, a removal, whitespace stripping,
+    creation, set_text_consolidation and an unwrap.  Every call answers `Ok`; the first clone is, node
+    for node, what it was, while the source's tree has changed. -/
+def exXStore : Store := ⟨(exForest.cloneWithPrefixes 3 [(2, 2)]).1, exEnv⟩
+def exXCalls : List Forest.XCall :=
+  [.call (.mapInsert .namespaces 3 (.namespace 2 2)), .deduplicateNamespaces 0,
+   .call (.mapRemove .namespaces 1 2), .createMissingPrefixes 0,
+   .cloneWithPrefixes 3 [(3, 2)], .call (.insertBefore 3 5), .call (.remove 4),
+   .removeInsignificantWhitespace 0, .newNode (.text []), .setConsolidation false, .call (.elementUnwrap 3)]
+example : ∀ c ∈ exXCalls, ∀ a ∈ c.writeArgs, a < 6 := by decide
+/-- all there is to see of a tree of depth one: the node and its children, handle and value -/
+def exXView (t : HTree) : Nat × Value × List (Nat × Value × Nat) :=
+  (t.handle, t.value, t.kids.map (fun k => (k.handle, k.value, k.kids.length)))
+example : (exXStore.forest.get? 7).map HTree.handles = some [7, 10, 8, 9] ∧
+    exXStore.forest.isRoot 7 = true ∧ (exXStore.xrun exXCalls).forest.isRoot 7 = true ∧
+    ((exXStore.xrun exXCalls).forest.get? 7).map exXView = (exXStore.forest.get? 7).map exXView ∧
+    exXStore.xouts exXCalls = [.ok, .ok, .ok, .ok, .ok, .ok, .ok, .ok, .ok, .ok, .ok] ∧
+    ((exXStore.xrun exXCalls).forest.get? 0).map HTree.handles = some [0, 1, 12, 5] ∧
+    ((exXStore.xrun exXCalls).forest.get? 14).map (fun t => t.kids.map (·.value)) =
+      some [.namespace 3 2, .attribute 3 ['v'], .text ['x']] ∧
+    (exXStore.xrun exXCalls).env.prefixes = [[], ['x','m','l'], ['p'], ['n', '0']] := by
+  decide +kernel
+/-- … the order handed to the second cloning is the model's `inherited_prefixes` in that state. -/
+example : (exXStore.xrun (exXCalls.take 4)).forest.inheritedPrefixes (exXStore.xrun (exXCalls.take 4)).env 3 =
+    [(3, 2)] := by decide +kernel
+/-- … and the other way round: calls on the clone (arguments 7 … 10). -/
+example : ∀ c ∈ [Forest.XCall.createMissingPrefixes 7, .deduplicateNamespaces 7, .call (.remove 9),
+    .removeInsignificantWhitespace 7], ∀ a ∈ c.writeArgs, 6 ≤ a := by decide
 
 end XotModel.Props
